@@ -516,6 +516,10 @@ def gen_c12(ctx):
         specs.append(spec(1, [beh], i="D", term="capture", data=50000, read="all") + " epipe=1")
     specs.append(spec(2, ["X3", "C"], i="D", term="capture", data=50000, read="all") + " epipe=1")
     specs.append(spec(3, ["G10:0", "C", "C"], i="D", term="capture", data=50000, read="all") + " epipe=1")
+    # ... and for a command that closes its stdin but goes on writing: when the exchange has failed, nobody may wait for it
+    # while still holding the pipe it writes to
+    specs.append(spec(1, ["YC"], i="D", term="capture", data=50000, read="all") + " epipe=1")
+    specs.append(spec(2, ["YC", "C"], i="D", term="capture", data=50000, read="all") + " epipe=1")
     # the failed-launch child is reaped too
     specs.append(spec(1, ["nosuch"], term="join"))
     specs.append(spec(1, ["nosuch"], term="popen", det="1"))
